@@ -30,6 +30,7 @@ EXPLANATION = (
   ' (STATE-share) no assignment stores a container field of one object (a field the package updates in place) into a field of another object without copying it, so an in-place update of one object never changes another;'
   " (ITEM-source) an object built once per item of an inner loop is filled only with values that derive from that item or do not vary with the loops, never with a value of the enclosing container standing where the item's own belongs;"
   ' (FIN-links) push_child and remove_child, interpreted on explicit little heaps (1..4 children, removal at every position, one more push), leave the first / last / previous / next / parent fields describing one consistent doubly linked list and the removed child fully detached;'
+  ' (LOOP-break) no loop over the items of a collection is left by a branch that does nothing but `break` on a test about the item (end-of-input sentinels, flags set in the loop body and searches whose variable is read afterwards excepted): an item that is to be skipped does not end the processing of the items after it;'
 )
 RULE_TEXT = "one instance per element kind, link-field store, guard, mutator, store site, registry writer"
 UNDECIDED = ["arbitrary call histories as such (the rules are the per-operation preconditions, not the induction)",
